@@ -150,7 +150,11 @@ def one(seed, i, tier, res, pool):
         if k in ("task_uuid", "task_level", "timestamp"):
             continue
         r = rng.random()
-        if r < 0.6:
+        if r < 0.004:
+            # a very long value (hundreds of kilobytes up to a megabyte)
+            v = rng.choice(["x", "é\n", "\U0001f600", "\\\""]) * rng.choice([70000, 300000, 1000000 // 4])
+            e = v
+        elif r < 0.6:
             v = gen.gen_value(rng, rng.choice([0, 1, 2, 4]))
             e = v
         elif r < 0.7:
